@@ -89,10 +89,14 @@ class Node:
         return self.kind + ("(" + ",".join(map(repr, self.kids)) + ")" if self.kids else "")
 
 
-LEAN_KINDS = {"dense", "diag", "cdiag", "toep", "cmul", "mulc", "mm", "sum", "addeddiag", "masked", "interp", "bdiag", "binter", "sbatch"}
+LEAN_KINDS = {"dense", "diag", "cdiag", "toep", "cmul", "mulc", "mm", "sum", "addeddiag", "masked", "interp", "bdiag", "binter", "sbatch",
+              # classes with the default (reverse sweep through `_matmul`) derivative, and Mul's root branch
+              "psdsum", "kpad", "sumkron", "root", "lowrankroot", "lrrad", "tri", "chol", "mul", "kron", "kdiag", "mT", "cat"}
 
 
 def lean_ok(node):
+    if node.kind == "mul" and not all(k.kind == "root" for k in node.kids):
+        return False
     return node.kind in LEAN_KINDS and all(lean_ok(k) for k in node.kids)
 
 
@@ -129,8 +133,11 @@ def shape_of(node):
         n, m = shape_of(node.kids[0])
         return x["k"] * n, x["k"] * m
     if k in ("kron", "kdiag"):
-        (a, b), (c, d) = shape_of(node.kids[0]), shape_of(node.kids[1])
-        return a * c, b * d
+        a, b = 1, 1
+        for kid in node.kids:
+            c, d = shape_of(kid)
+            a, b = a * c, b * d
+        return a, b
     if k == "mT":
         n, m = shape_of(node.kids[0])
         return m, n
@@ -337,8 +344,8 @@ def emit(node, P, nb, midx):
     if k in ("cmul", "mulc"):
         t, s = emit(node.kids[0], P, nb, midx)
         return ["cmul"] + t, s + _member(P, node.leaves[0], nb, (), midx)
-    if k in ("mm", "sum", "addeddiag"):
-        tag = "mm" if k == "mm" else "sum"
+    if k in ("mm", "sum", "addeddiag", "psdsum", "kpad", "sumkron"):
+        tag = "mm" if k == "mm" else "sum"  # AddedDiag, PsdSum, KroneckerProductAddedDiag, SumKronecker inherit Sum's derivative
         t, s = emit(node.kids[0], P, nb, midx)
         for kid in node.kids[1:]:
             t2, s2 = emit(kid, P, nb, midx)
@@ -357,6 +364,38 @@ def emit(node, P, nb, midx):
         enc = lambda m: ";".join(",".join(str(int(v)) for v in r) for r in m.tolist())
         s = s + _member(P, node.leaves[0], nb, tuple(li.shape[-2:]), midx) + _member(P, node.leaves[1], nb, tuple(ri_.shape[-2:]), midx)
         return ["interp", str(li.shape[-2]), str(ri_.shape[-2]), str(li.shape[-1]), str(ri_.shape[-1]), enc(lim), enc(rim)] + t, s
+    if k == "root":
+        t, s = emit(node.kids[0], P, nb, midx)
+        return ["root"] + t, s
+    if k == "lowrankroot":  # LowRankRootLinearOperator(R) = Root(Dense(R))
+        return ["root", "dense", str(x["n"]), str(x["r"])], _member(P, node.leaves[0], nb, (x["n"], x["r"]), midx)
+    if k == "lrrad":  # LowRankRootAddedDiag: Sum's hand-written derivative over (LowRankRoot, Diag)
+        t, s = emit(node.kids[0], P, nb, midx)
+        return ["sum", "root", "dense", str(x["n"]), str(x["r"])] + t, _member(P, node.leaves[0], nb, (x["n"], x["r"]), midx) + s
+    if k in ("tri", "chol"):
+        # the representation tensor is tril/triu(leaf): masked entries are the constant 0 (not tied to the leaf)
+        n_ = x["n"]
+        keep = (lambda i, j: i <= j) if (k == "tri" and x.get("upper")) else (lambda i, j: i >= j)
+        sc = _member(P, node.leaves[0], nb, (n_, n_), midx)
+        sc = [(v, name, fl) if keep(q // n_, q % n_) else (0.0, "<masked>", 0) for q, (v, name, fl) in enumerate(sc)]
+        return (["root"] if k == "chol" else []) + ["dense", str(n_), str(n_)], sc
+    if k == "mul":  # MulLinearOperator(Root(a), Root(b)): the root branch of the hand-written derivative
+        ta, sa = emit(node.kids[0].kids[0], P, nb, midx)
+        tb, sb = emit(node.kids[1].kids[0], P, nb, midx)
+        return ["mulroot"] + ta + tb, sa + sb
+    if k in ("kron", "kdiag"):  # P factors = right-nested binary products (the loop of `_matmul` is this recursion)
+        parts = [emit(kid, P, nb, midx) for kid in node.kids]
+        t, s = parts[-1]
+        for t2, s2 in reversed(parts[:-1]):
+            t, s = ["kron"] + t2 + t, s2 + s
+        return t, s
+    if k == "mT":
+        t, s = emit(node.kids[0], P, nb, midx)
+        return ["tr"] + t, s
+    if k == "cat":
+        ta, sa = emit(node.kids[0], P, nb, midx)
+        tb, sb = emit(node.kids[1], P, nb, midx)
+        return ["catr" if x["dim"] == -2 else "catc"] + ta + tb, sa + sb
     if k in ("bdiag", "binter", "sbatch"):
         t = None
         s = []
@@ -378,8 +417,9 @@ def all_leaves(node, acc=None):
 
 
 class Inst:
-    def __init__(self, name, node, leaves, batch, psd=False, exact=True, sym=(), tol=None):
+    def __init__(self, name, node, leaves, batch, psd=False, exact=True, sym=(), tol=None, light=False):
         self.name, self.node, self.leaves, self.batch = name, node, leaves, tuple(batch)
+        self.light = light  # nesting instances of the default-derivative classes: all bilinear / model cells, few entry points
         self.psd, self.exact, self.sym = psd, exact, set(sym)
         self.lean = lean_ok(node) or (node.kind == "brep" and lean_ok(node.kids[0]))
         self.names = all_leaves(node)
@@ -437,7 +477,7 @@ def instances(rng, batch, n, mode="full", psd=False, only_cpat=False, rpat_only=
             self.leaves[name] = gen((_red(rng, nb, mode) if lead is None else tuple(lead)) + tuple(core))
             return name
 
-    def add(name, fn, psd_=False, exact=True, sym_prefix=("S",), cpat=False):
+    def add(name, fn, psd_=False, exact=True, sym_prefix=("S",), cpat=False, light=False):
         if psd and not psd_:
             return
         if only_cpat and not ((cpat and not rpat_only) or name in RPAT):
@@ -445,7 +485,7 @@ def instances(rng, batch, n, mode="full", psd=False, only_cpat=False, rpat_only=
         c = Ctx()
         node = fn(c, B)
         sym = [k for k in c.leaves if k[0] in sym_prefix]
-        inst = Inst(name, node, c.leaves, B, psd=psd_, exact=exact, sym=sym)
+        inst = Inst(name, node, c.leaves, B, psd=psd_, exact=exact, sym=sym, light=light)
         if cpat or only_cpat:
             try:  # the constructor / `op * c` route may refuse a pattern: then it is not an instance
                 inst.build(inst.params())
@@ -604,4 +644,27 @@ def instances(rng, batch, n, mode="full", psd=False, only_cpat=False, rpat_only=
     add("Cat<rows>(Dense,Toeplitz)", lambda c, nb: Node("cat", [Dense(c, nb, 2, n), Toep(c, nb, n)], dim=-2), exact=False)
     add("Matmul(Cat<cols>,Dense)", lambda c, nb: Node("mm", [Node("cat", [Dense(c, nb, n, 2), Dense(c, nb, n, 1)], dim=-1), Dense(c, nb, 3, 2)]))
     add("Interpolated<sym>(Dense<psd>)+Diag", lambda c, nb: Node("sum", [Interp(c, nb, DensePsd(c, nb, n + 1), n, n, tied=True), Diag(c, nb, n)]), True)
+    # nestings of the classes with the default derivative (reverse sweep through their own `_matmul`) with each other and with
+    # hand-written parents / children: all of them are in the Lean model (root, mulroot, kron, catr/catc, tr)
+    Root = lambda kid: Node("root", [kid])
+    Kron = lambda *kids: Node("kron", list(kids))
+    add("Kronecker3(Dense<psd>,Diag,Dense<psd>)", lambda c, nb: Kron(DensePsd(c, nb, 2), Diag(c, nb, 2), DensePsd(c, nb, 2)), True, light=True)
+    add("Kronecker3<rect>(Dense,Dense,Dense)", lambda c, nb: Kron(Dense(c, nb, 2, 1), Dense(c, nb, 1, 2), Dense(c, nb, n, 2)), light=True)
+    add("Root(Matmul(Dense,Diag))", lambda c, nb: Root(Node("mm", [Dense(c, nb, n, 2), Diag(c, nb, 2, pos=False)])), light=True)
+    add("Kronecker(Root(Dense),Toeplitz)", lambda c, nb: Kron(Root(Dense(c, nb, 2, 1)), Toep(c, nb, n)), exact=False, light=True)
+    add("Cat<rows>(Kronecker,Root)", lambda c, nb: Node("cat", [Kron(Dense(c, nb, 1, 2), Dense(c, nb, 2, 2)), Root(Dense(c, nb, 4, 1))], dim=-2), light=True)
+    add("Cat<cols>(Transpose(Matmul),Toeplitz)", lambda c, nb: Node("cat", [Node("mT", [Node("mm", [Dense(c, nb, 2, n), Diag(c, nb, n, pos=False)])]), Toep(c, nb, n)], dim=-1), exact=False, light=True)
+    add("BlockDiag(Root(Dense))", lambda c, nb: Node("bdiag", [Root(Dense(c, nb + (2,), n, 2))], k=2), light=True)
+    add("SumBatch(Kronecker(Dense,Dense))", lambda c, nb: Node("sbatch", [Kron(Dense(c, nb + (2,), 2, 2), Dense(c, nb + (2,), 2, 1))], k=2), light=True)
+    add("BatchRepeat(Kronecker(Dense<psd>,Dense<psd>))", lambda c, nb: Node("brep", [Kron(DensePsd(c, nb, 2), DensePsd(c, nb, 2))], rep=rep, inner=nb, nbtop=nbtop), True, light=True)
+    add("Transpose(Kronecker<rect>)", lambda c, nb: Node("mT", [Kron(Dense(c, nb, 2, 3), Dense(c, nb, n, 2))]), light=True)
+    add("ConstantMul(Root(Dense))", lambda c, nb: CMul(c, nb, Root(Dense(c, nb, n, 2)), pos=False), light=True)
+    add("Sum(Chol,LowRankRoot)", lambda c, nb: Node("sum", [Node("chol", leaves=[c.leaf("L", nb, (n, n), gtril)], n=n),
+                                                            Node("lowrankroot", leaves=[c.leaf("R", nb, (n, 2), g(-2, 2))], n=n, r=2)]), True, light=True)
+    add("Interpolated(Kronecker)", lambda c, nb: Interp(c, nb, Kron(Dense(c, nb, 2, 2), Dense(c, nb, 2, 2)), n, 2), light=True)
+    add("Mul(Root(Kronecker),Root(Dense))", lambda c, nb: Node("mul", [Root(Kron(Dense(c, nb, 2, 1, g(-2, 2)), Dense(c, nb, 2, 1, g(-2, 2)))),
+                                                                       Root(Dense(c, nb, 4, 2, g(-2, 2)))]), light=True)
+    add("Masked(Kronecker)", lambda c, nb: Masked(c, nb, Kron(Dense(c, nb, 2, 2), Dense(c, nb, 2, n))), light=True)
+    add("Matmul(Triangular,Kronecker)", lambda c, nb: Node("mm", [Node("tri", leaves=[c.leaf("L", nb, (4, 4), gtril)], n=4, upper=True),
+                                                                  Kron(Dense(c, nb, 2, 1), Dense(c, nb, 2, 2))]), light=True)
     return out
